@@ -49,6 +49,11 @@ VARIABLES s, t, entry, fb, items,          \* the configuration
 vars == <<s, t, entry, fb, items, pc, path, nodes, orig, funcs, fnDecl, declared, cur, fv, modified, clash,
           gin, ginit, cin, cinit, cnodes, pOpset, pNodes, pFuncs, pIn, pInit, used>>
 
+\* proto_opset_stale, dft_default_axis_changed and groupnorm_epsilon_dropped are FIXED in the code
+\* (known_findings.json "fixed"; the harness removes fixed ids from Deviations): their deviation
+\* branches stay here so that a regression re-introducing one of them is a property failure that
+\* the implementation model does not explain (an unexplained VIOLATION), and the design branch of
+\* each is what the fixed code does.
 AllDevs == {"proto_opset_stale", "adapter_error_swallowed", "groupnorm_unknown_shape_skipped",
             "dft_default_axis_changed", "groupnorm_epsilon_dropped", "subgraph_name_clash"}
 SUPPORTED_MIN == 18
@@ -188,10 +193,10 @@ AdapterOutcome(n, v, devs) ==
          IF "axis" \in n.attrs
          THEN <<"replace", <<Const(n, "value_int", v + 1),
                              New(n, "DFT", 3, (n.attrs \ {"axis"}) \cup {"inverse", "onesided"}, "dft.in", v + 1)>>>>
-         ELSE IF n.sem = "dft.def1.r4" /\ "dft_default_axis_changed" \notin devs
-         THEN <<"replace", <<Const(n, "value_int", v + 1),          \* design: make the old default (1) explicit
-                             New(n, "DFT", 3, {"inverse", "onesided"}, "dft.in", v + 1)>>>>
-         ELSE <<"none">>                                            \* code: `return None` when no axis attribute
+         ELSE IF "dft_default_axis_changed" \notin devs
+         THEN <<"replace", <<Const(n, "value_int", v + 1),          \* design = code since eaf739e: the old default
+                             New(n, "DFT", 3, (n.attrs \cup {"inverse", "onesided"}), "dft.in", v + 1)>>>>  \* (axis 1) is made explicit, whatever the rank
+         ELSE <<"none">>                                            \* FIXED deviation: `return None` when no axis attribute
     [] n.op = "GridSample" ->
          IF n.sem = "gs.old"
          THEN <<"replace", <<New(n, "GridSample", 2, {"align_corners", "mode", "padding_mode"}, "gs.new", v + 1)>>>>
